@@ -128,6 +128,29 @@ def real_run(build, files, script, prof_mod, prof_imports=False):
         shutil.rmtree(d, ignore_errors=True)
 
 
+def module_run(build, with_dir):
+    """`kernprof -l -p report -m report`: the module being run is itself the selection (given as a dotted name); optionally the working directory
+    also holds a data directory of the same name (`report/`, no package) next to `report.py`"""
+    d = tempfile.mkdtemp(prefix='c09m-', dir=SCRATCH_ROOT)
+    try:
+        with open(os.path.join(d, 'report.py'), 'w') as fh:
+            fh.write('def fib(n):\n    return n if n < 2 else fib(n - 1) + fib(n - 2)\n\n\ndef main():\n    print(fib(6))\n\n\nif __name__ == "__main__":\n    main()\n')
+        if with_dir:
+            os.makedirs(os.path.join(d, 'report'))
+            open(os.path.join(d, 'report', 'data.txt'), 'w').close()
+        e = real_env(build)
+        b = subprocess.run([PY, '-m', 'kernprof', '-l', '-p', 'report', '-m', 'report'], cwd=d, env=e, capture_output=True, text=True, timeout=120)
+        keys = None
+        lprofs = [f for f in os.listdir(d) if f.endswith('.lprof')]
+        if lprofs:
+            q = subprocess.run([PY, '-c', 'import sys,json,line_profiler;s=line_profiler.load_stats(sys.argv[1]);print(json.dumps(sorted(k[2] for k, v in s.timings.items() if v)))',
+                                os.path.join(d, lprofs[0])], cwd=d, env=e, capture_output=True, text=True)
+            keys = json.loads(q.stdout.strip().splitlines()[-1])
+        return {'rc': b.returncode, 'err': b.stderr[-400:], 'out': b.stdout[:40], 'profiled': keys}
+    finally:
+        shutil.rmtree(d, ignore_errors=True)
+
+
 def run(ctx):
     ctx.prove('LPVerif.Props.C09', 'LPVerif/Props/C09.lean', drivers=('Select', 'FS'))
     build = ctx.build()
@@ -379,6 +402,11 @@ def run(ctx):
     if not names[0] or any(n != names[0] for n in names[1:]) or any(r['rc'] != 0 for r in sr):
         ctx.fail('the script selected by its own file name is not profiled the same whatever the name looks like',
                  {'finding_class': None, 'profiled_functions_per_spelling': {sp[0]: n for sp, n in zip(spell, names)}, 'exit_codes': [r['rc'] for r in sr], 'source': text[:1200]})
+    for with_dir in (False, True):
+        mr = module_run(build, with_dir)
+        if mr['rc'] != 0 or mr['profiled'] != ['fib', 'main']:
+            ctx.fail('a module run with -m and selected by its dotted name is not profiled',
+                     {'finding_class': None, 'command': 'kernprof -l -p report -m report', 'a_directory_report_next_to_report_py': with_dir, 'real': mr, 'expected_profiled': ['fib', 'main']})
     nontrivial = set()
     stats = {'runs': 0, 'F-C09a': 0, 'F-C09b': 0, 'F-C09c': 0, 'star': 0}
     for c, r in zip(sample, rr):
